@@ -199,6 +199,8 @@ def lsCmd (arg : String) : String :=
      | "cartesianlazy" => let r := parseInts b; showIntss ((Ls.cartesian l r 0 0).map (fun p => [p.1, p.2]))
      | "zip" => showIntss ((Ls.zipLongest l (parseInts b)).map (fun p => [p.1, p.2]))
      | "transpose" => showIntss (Ls.transposeR ((a.splitOn ";").map parseInts))
+     | "max" => (match Ls.vyMax (.node (l.map Ls.T.leaf)) with | some m => toString m | none => "[]")
+     | "min" => (match Ls.vyMin (.node (l.map Ls.T.leaf)) with | some m => toString m | none => "[]")
      | "gradeup" => showInts ((Ls.gradeUp l).map (fun (i : Nat) => (i : Int)))
      | "gradedown" => showInts ((Ls.gradeDown l).map (fun (i : Nat) => (i : Int)))
      | "sublists" => showIntss (Ls.contiguous l)
